@@ -1246,7 +1246,14 @@ func (s *Server) handleInputCommand(client *Client, msg *Message) error {
 		// this is local connection operation. Locks not needed.
 	case "echo":
 	case "massinsert":
-		// dev operation
+		// dev operation. It locks per inserted object, but it writes data and
+		// must be refused like any other write.
+		if s.config.followHost() != "" {
+			return writeErr("not the leader")
+		}
+		if s.config.readOnly() {
+			return writeErr("read only")
+		}
 	case "sleep":
 		// dev operation
 		s.mu.RLock()
